@@ -361,6 +361,15 @@ def impl_direct(case):
     df = case_df(case)
     tcol, pcol, scol = case["cols"]
     P = mk_proteins(case["P"])
+    if case.get("warm"):
+        # the same Proteins object analysed another table first (what several datasets in one
+        # assign_confidence call, or the CLI with several PIN files, do): no effect on this table allowed
+        w = case["warm"]
+        try:
+            with quiet():
+                picked_protein(case_df(w), *w["cols"], P, w["seed"])
+        except Exception:  # noqa: BLE001
+            pass
     try:
         with quiet():
             res = picked_protein(df, tcol, pcol, scol, P, case["seed"])
@@ -397,7 +406,8 @@ def impl_e2e(case):
 
     rows = case["rows"]
     d = Path(tempfile.mkdtemp(prefix="e2e-", dir=tmpdir()))
-    try:
+
+    def run(rows, name, proteins, seed):
         sc = np.array([float(Fraction(r["score"])) for r in rows], dtype=float)
         df = pd.DataFrame({
             "SpecId": [f"psm{i}" for i in range(len(rows))],
@@ -409,16 +419,25 @@ def impl_e2e(case):
             "Peptide": [r["peptide"] for r in rows],
             "Proteins": ["prot"] * len(rows),
         })
-        pin = d / "x.pin"
+        pin = d / (name + ".pin")
         df.to_csv(pin, sep="\t", index=False)
-        out = d / "out"
+        out = d / name
         out.mkdir()
+        with quiet(), pep_stub():
+            ds = mokapot.read_pin(pin, max_workers=1)[0]
+            mokapot.assign_confidence([ds], max_workers=1, scores=[sc], dest_dir=out,
+                                      proteins=proteins, prefixes=[None], decoys=True, rng=seed)
+        return out
+
+    try:
+        proteins = mk_proteins(case["P"])
+        if case.get("warm"):
+            try:
+                run(case["warm"]["rows"], "warm", proteins, case["warm"]["seed"])
+            except Exception:  # noqa: BLE001
+                pass
         try:
-            with quiet(), pep_stub():
-                ds = mokapot.read_pin(pin, max_workers=1)[0]
-                mokapot.assign_confidence([ds], max_workers=1, scores=[sc], dest_dir=out,
-                                          proteins=mk_proteins(case["P"]), prefixes=[None], decoys=True,
-                                          rng=case["seed"])
+            out = run(rows, "out", proteins, case["seed"])
         except Exception as e:  # noqa: BLE001
             return classify_exc(e), None, None
         pep_rows = []
@@ -642,6 +661,7 @@ def eval_direct(chk, cases):
         chk.count("style", c["style"])
         chk.count("scores", c["smode"])
         chk.count("has_decoys", P["has_decoys"])
+        chk.count("proteins_object", "reused-after-another-table" if c.get("warm") else "fresh")
         chk.count("n_rows", len(rows) if len(rows) < 10 else (len(rows) // 10) * 10)
         chk.count("n_groups", min(len(set(P["peptide_map"].values())), 10))
         chk.count("shared_in_db", bool(P["shared"]))
@@ -710,6 +730,7 @@ def eval_e2e(chk, cases):
         chk.count("entry", "e2e")
         chk.count("style", c["style"])
         chk.count("has_decoys", P["has_decoys"])
+        chk.count("proteins_object", "reused-after-another-table" if c.get("warm") else "fresh")
         chk.count("outcome", st if not st.startswith("other") else "other")
         if st.startswith("other"):
             chk.case(None, None)
@@ -897,6 +918,8 @@ def random_cases(rng, n, big=False, e2e=False):
         c = gen_table(rng, db, P, big=big, e2e=e2e)
         c["fasta"] = db["fasta"]
         c["_mm"] = mm
+        if i % 3 != 0 and rng.random() < 0.6:
+            c["warm"] = {k: out[-1][k] for k in ("rows", "cols", "seed", "sdtype", "pdtype", "index")}
         out.append(c)
     return out
 
